@@ -2,6 +2,7 @@ import Fpdec.Kernels.Cmp
 import Fpdec.Kernels.Ratio
 import Fpdec.Kernels.Rkyv
 import Fpdec.Lemmas.RatioL
+import Fpdec.Lemmas.Cmp
 import Fpdec.Props.C09_Sites
 
 /-!
@@ -114,5 +115,60 @@ theorem as_integer_ratio_of_equal_values (prof : Profile) (x y : Dec) (hx : Dom 
 example : asIntegerRatio Profile.dev (fromInt (-7)) = .ok (-7, 1) ∧ asIntegerRatio Profile.release (fromInt I128_MIN) = .ok (I128_MIN, 1) ∧
     asIntegerRatio Profile.dev ⟨0, 5⟩ = .ok (0, 1) ∧ asIntegerRatio Profile.dev ⟨-50, 2⟩ = .ok (-1, 2) ∧
     (-1 : Int) * 10 ^ 2 = -50 * 2 ∧ asIntegerRatio Profile.dev ⟨340, 2⟩ = asIntegerRatio Profile.dev ⟨34, 1⟩ := by decide
+
+/-- conversely to `ratio_of_equal_values`: the reduced fraction determines the value (arbitrary integers and scales) -/
+theorem equal_values_of_ratio (a : Int) (p : Nat) (b : Int) (q : Nat) (h : Spec.ratio a p = Spec.ratio b q) :
+    Spec.cmp a p b q = .eq := by
+  obtain ⟨d1, _, v1⟩ := ratio_is_reduced a p
+  obtain ⟨_, _, v2⟩ := ratio_is_reduced b q
+  rw [← h] at v2
+  rw [spec_cmp_eq_iff]
+  generalize (Spec.ratio a p).1 = n at v1 v2
+  generalize (Spec.ratio a p).2 = d at d1 v1 v2
+  generalize (10 : Int) ^ p = P at v1 v2 ⊢
+  generalize (10 : Int) ^ q = Q at v1 v2 ⊢
+  -- n * P = a * d, n * Q = b * d ⊢ a * Q = b * P
+  have e : a * Q * d = b * P * d := by
+    calc a * Q * d = (a * d) * Q := by ring
+      _ = (n * P) * Q := by rw [v1]
+      _ = (n * Q) * P := by ring
+      _ = (b * d) * P := by rw [v2]
+      _ = b * P * d := by ring
+  exact Int.eq_of_mul_eq_mul_right (Int.ne_of_gt d1) e
+
+/-- `Spec.ratio` is a complete invariant of the value -/
+theorem ratio_eq_iff_equal_values (a : Int) (p : Nat) (b : Int) (q : Nat) :
+    Spec.ratio a p = Spec.ratio b q ↔ Spec.cmp a p b q = .eq :=
+  ⟨equal_values_of_ratio a p b q, ratio_of_equal_values a p b q⟩
+
+/-- conversely to `as_integer_ratio_of_equal_values`: two Decimals of the domain with the same `as_integer_ratio` (in whatever
+    profiles) have the same value -/
+theorem equal_values_of_as_integer_ratio (prof prof' : Profile) (x y : Dec) (hx : Dom x) (hy : Dom y)
+    (h : asIntegerRatio prof x = asIntegerRatio prof' y) : Spec.cmp x.coeff x.nfrac y.coeff y.nfrac = .eq := by
+  rw [(as_integer_ratio_spec prof x hx).1, (as_integer_ratio_spec prof' y hy).1] at h
+  injection h with h
+  exact equal_values_of_ratio _ _ _ _ h
+
+/-- `as_integer_ratio` agrees exactly on the Decimals of equal value -/
+theorem as_integer_ratio_eq_iff (prof : Profile) (x y : Dec) (hx : Dom x) (hy : Dom y) :
+    asIntegerRatio prof x = asIntegerRatio prof y ↔ Spec.cmp x.coeff x.nfrac y.coeff y.nfrac = .eq :=
+  ⟨equal_values_of_as_integer_ratio prof prof x y hx hy, as_integer_ratio_of_equal_values prof x y hx hy⟩
+
+/-- the same for `Hash`: the words fed to the hasher are the same exactly for equal values (the feed itself is collision-free) -/
+theorem hash_feed_eq_iff (prof : Profile) (x y : Dec) (hx : Dom x) (hy : Dom y) :
+    hashFeed prof x = hashFeed prof y ↔ Spec.cmp x.coeff x.nfrac y.coeff y.nfrac = .eq := by
+  constructor
+  · intro h
+    rw [(hash_of_equal_values prof x x hx hx (spec_cmp_refl _ _)).2,
+      (hash_of_equal_values prof y y hy hy (spec_cmp_refl _ _)).2] at h
+    injection h with h
+    injection h with h1 h
+    injection h with h2 _
+    exact equal_values_of_ratio _ _ _ _ (Prod.ext h1 h2)
+  · intro h; exact (hash_of_equal_values prof x y hx hy h).1
+
+example : asIntegerRatio Profile.dev ⟨340, 2⟩ ≠ asIntegerRatio Profile.dev ⟨35, 1⟩ ∧ Spec.cmp 340 2 35 1 ≠ .eq ∧
+    Spec.ratio 340 2 = Spec.ratio 34 1 ∧ Spec.cmp 340 2 34 1 = .eq ∧
+    hashFeed Profile.dev ⟨340, 2⟩ ≠ hashFeed Profile.dev ⟨35, 1⟩ := by decide
 
 end Fpdec.Props.C09
